@@ -60,7 +60,7 @@ theorem unCheck_iff (h : unCheck T = true) (k : UnK) (a : Sm) (ea : ETy) (hk : u
 theorem binCheck_iff (h : binCheck T = true) (k : BinK) (a b : Sm) (ea eb : ETy)
     (hta : (a != .of .unknown) = true) (htb : (b != .of .unknown) = true)
     (hra : Rel a ea = true) (hrb : Rel b eb = true) (hne : (T.duckBin k ea eb != .error) = true) :
-    (famBin k a b ea eb).isNone = Rel (.of (annotBin T k a b)) (T.duckBin k ea eb) := by
+    (famBin T k a b ea eb).isNone = Rel (.of (annotBin T k a b)) (T.duckBin k ea eb) := by
   simp only [binCheck, List.all_eq_true] at h
   have := h k (BinK.mem_all k) a (Sm.mem_typed hta) b (Sm.mem_typed htb) ea (mem_compat hra) eb (mem_compat hrb)
   simp only [Bool.or_eq_true, beq_iff_eq] at this
